@@ -31,6 +31,7 @@ struct mtask_s {
 	int zombie;		/* loaded without any future occurrence: never runs, goes when time moves on */
 	double loaded_at;
 	int tpl;
+	int gen;		/* incarnation: a cancelled and re-added UID is a new task, a replaced one is not */
 };
 
 struct model_s {
@@ -40,7 +41,9 @@ struct model_s {
 	struct {
 		char uid[16];
 		int pid;
+		int gen;
 	} chld[HX_MAXCHLD];
+	int nextgen;
 };
 
 static struct model_s M;
@@ -56,6 +59,8 @@ struct vt_s {
 	uint64_t key[VT_SIZE];
 	uint8_t depthleft[VT_SIZE];
 	long states, transitions, traces, pruned, outcomes;
+	int nscratch;
+	int scratch[96][5];
 };
 static struct vt_s *VT;
 
@@ -71,7 +76,7 @@ struct tpl_s {
 /* T0 = 2030-01-01T00:00:00Z */
 static const struct tpl_s tpls[] = {
 	{"oneshot+2", "DTSTART:20300101T000002Z\n", 1, {2}, 0},
-	{"rdate+2+4", "DTSTART:20300101T000002Z\nRDATE:20300101T000004Z\n", 2, {2, 4}, 0},
+	{"rdate+2+4", "DTSTART:20300101T000002Z\nRDATE:20300101T000002Z,20300101T000004Z\n", 2, {2, 4}, 0},
 	{"sec2x3", "DTSTART:20300101T000002Z\nRRULE:FREQ=SECONDLY;INTERVAL=2;COUNT=3\n", 3, {2, 4, 6}, 0},
 	{"past", "DTSTART:20291231T235950Z\nRRULE:FREQ=SECONDLY;COUNT=2\n", 2, {-10, -9}, 0},
 	{"straddle", "DTSTART:20291231T235959Z\nRRULE:FREQ=SECONDLY;INTERVAL=3;COUNT=3\n", 3, {-1, 2, 5}, 0},
@@ -84,7 +89,7 @@ static const struct tpl_s tpls[] = {
 #define NTPL	((int)(sizeof(tpls) / sizeof(*tpls)))
 
 static const unsigned users[] = {1000, 1001, 0};
-static const char *const uids[] = {"A", "B", "C"};
+static const char *const uids[] = {"A", "B", "CC"};
 
 /* ---------------- events ---------------- */
 enum {E_ADD, E_CANCEL, E_TICK_ONTIME, E_TICK_IDLE, E_TICK_LATE, E_EXIT, E_LIST, E_SCHED, E_ADDOWN, E_ADD2};
@@ -112,6 +117,7 @@ m_new(const char *uid)
 		if (!M.t[i].present) {
 			memset(&M.t[i], 0, sizeof(M.t[i]));
 			M.t[i].present = 1;
+			M.t[i].gen = ++M.nextgen;
 			snprintf(M.t[i].uid, sizeof(M.t[i].uid), "%s", uid);
 			return &M.t[i];
 		}
@@ -205,7 +211,7 @@ enabled(struct ev_s *ev, int max)
 	/* child exits; children of one task in the same state are interchangeable, take the oldest of each task */
 	for (int i = 0; i < M.nchld; i++) {
 		int dup = 0;
-		for (int j = 0; j < i; j++) dup |= !strcmp(M.chld[j].uid, M.chld[i].uid);
+		for (int j = 0; j < i; j++) dup |= !strcmp(M.chld[j].uid, M.chld[i].uid) && M.chld[j].gen == M.chld[i].gen;
 		if (!dup || prop == 12) PUSH(E_EXIT, 0, 0, i);
 	}
 	/* commands */
@@ -304,7 +310,7 @@ check_state(const struct ev_s *e, int spawn_from, const int *exp_spawn /* per mo
 			snprintf(shape, sizeof(shape), "%s/after=%s", why, k);
 			report("spawn-unexpected", shape, "task %s spawned at +%.3f but nothing is due (next occurrence %s)", t->uid, sp->at - HX_T0,
 			       t->next < t->nocc ? "in the future" : "none");
-		} else if (got[ti] > 1) {
+		} else if (got[ti] > exp_spawn[ti]) {
 			snprintf(shape, sizeof(shape), "after=%s", k);
 			report("spawn-twice", shape, "task %s spawned %d times in one wake-up", t->uid, got[ti]);
 		} else {
@@ -321,8 +327,8 @@ check_state(const struct ev_s *e, int spawn_from, const int *exp_spawn /* per mo
 		}
 	}
 	for (int i = 0; i < M_MAXT; i++) {
-		if (M.t[i].present && exp_spawn[i] && !got[i]) {
-			snprintf(shape, sizeof(shape), "limit=%s/after=%s", M.t[i].limit == 0 ? "unset" : "set", k);
+		if (M.t[i].present && exp_spawn[i] > got[i]) {
+			snprintf(shape, sizeof(shape), "limit=%s/after=%s%s", M.t[i].limit == 0 ? "unset" : "set", k, hx_drift > 0 ? "/drift" : "");
 			report("spawn-missing", shape, "task %s has an occurrence due (+%.0f) but was not started", M.t[i].uid,
 			       M.t[i].occ[M.t[i].next > 0 ? M.t[i].next - 1 : 0] - HX_T0);
 		}
@@ -334,6 +340,10 @@ check_state(const struct ev_s *e, int spawn_from, const int *exp_spawn /* per mo
 		if (!t->present) continue;
 		for (int j = 0; j < nobs; j++) {
 			if (!strcmp(obs[j].uid, t->uid)) o = &obs[j];
+		}
+		if (o == NULL && (t->zombie || (t->next >= t->nocc && t->fired))) {
+			/* a task with nothing left to run may be dropped as early as the daemon likes */
+			continue;
 		}
 		if (o == NULL) {
 			snprintf(shape, sizeof(shape), "after=%s", k);
@@ -430,13 +440,17 @@ apply(const struct ev_s *e)
 		struct mtask_s *t = m_find(uids[e->uid]);
 		int ok = t && t->owner == u;
 		hx_request(&rp, u, req, o);
+		/* a task with nothing left to run may have been dropped already: either answer is right */
+		int optional = ok && (t->zombie || (t->next >= t->nocc && t->fired));
+		if (optional && rp.nsucc + rp.nfail == 1) {
+			;
+		} else if (rp.nsucc != ok || rp.nfail != !ok) {
+			snprintf(shape, sizeof(shape), "%s/%s", k, rp.nsucc + rp.nfail != 1 ? "count" : rp.nsucc ? "accepted" : "refused");
+			report("reply", shape, "cancel of %s by %u: %d success / %d failure replies, expected %s", uids[e->uid], u, rp.nsucc, rp.nfail, ok ? "success" : "failure");
+		}
 		if (ok) {
 			/* executions of a cancelled task keep running but belong to nobody */
 			t->present = 0;
-		}
-		if (rp.nsucc != ok || rp.nfail != !ok) {
-			snprintf(shape, sizeof(shape), "%s/%s", k, rp.nsucc + rp.nfail != 1 ? "count" : rp.nsucc ? "accepted" : "refused");
-			report("reply", shape, "cancel of %s by %u: %d success / %d failure replies, expected %s", uids[e->uid], u, rp.nsucc, rp.nfail, ok ? "success" : "failure");
 		}
 		break;
 	}
@@ -500,23 +514,34 @@ apply(const struct ev_s *e)
 				}
 			}
 		}
-		/* model: what is due strictly before TO */
-		for (int i = 0; i < M_MAXT; i++) {
-			struct mtask_s *t = &M.t[i];
-			if (!t->present) continue;
-			if (t->zombie) {
-				/* goes as soon as time moves past its load time */
-				if (to > t->loaded_at) t->present = 0;
-				continue;
+		/* model: what is due strictly before TO; a wake-up that started something is followed by
+		 * another look at the clock hx_drift later, where the same rule applies */
+		const double tick_to = to;
+		for (int round = 0; round < 8; round++) {
+			int any = 0;
+			for (int i = 0; i < M_MAXT; i++) {
+				struct mtask_s *t = &M.t[i];
+				if (!t->present) continue;
+				if (t->zombie) {
+					/* goes as soon as time moves past its load time */
+					if (to > t->loaded_at) t->present = 0;
+					continue;
+				}
+				if (t->next < t->nocc && t->occ[t->next] < to) {
+					while (t->next < t->nocc && t->occ[t->next] < to) t->next++;
+					/* the limit is judged against what runs when this start happens */
+					if (!exp_spawn[i]) {
+						exp_nd[i] = t->limit && t->running >= t->limit;
+					}
+					exp_spawn[i]++;
+					t->fired = 1;
+					any = 1;
+				}
 			}
-			if (t->next < t->nocc && t->occ[t->next] < to) {
-				while (t->next < t->nocc && t->occ[t->next] < to) t->next++;
-				exp_spawn[i] = 1;
-				exp_nd[i] = t->limit && t->running >= t->limit;
-				t->fired = 1;
-			}
+			if (!any || hx_drift <= 0) break;
+			to += hx_drift;
 		}
-		hx_tick(to);
+		hx_tick(tick_to);
 		break;
 	}
 	case E_EXIT: {
@@ -527,7 +552,7 @@ apply(const struct ev_s *e)
 			if (hx_chld[q]->pid == pid) hi = q;
 		}
 		struct mtask_s *t = m_find(M.chld[ci].uid);
-		if (t && t->running > 0) t->running--;
+		if (t && t->gen == M.chld[ci].gen && t->running > 0) t->running--;
 		memmove(&M.chld[ci], &M.chld[ci + 1], sizeof(M.chld[0]) * (size_t)(M.nchld - ci - 1));
 		M.nchld--;
 		if (hi < 0) {
@@ -546,6 +571,7 @@ apply(const struct ev_s *e)
 		if (M.nchld < HX_MAXCHLD) {
 			snprintf(M.chld[M.nchld].uid, sizeof(M.chld[0].uid), "%s", hx_spawns[s].uid);
 			M.chld[M.nchld].pid = hx_spawns[s].pid;
+			M.chld[M.nchld].gen = t ? t->gen : 0;
 			M.nchld++;
 		}
 		if (t) t->running++;
@@ -604,7 +630,10 @@ canon(void)
 			}
 			const char *spawner = "?";
 			for (int q = 0; q < M.nchld; q++) {
-				if (M.chld[q].pid == hx_chld[c]->pid) spawner = M.chld[q].uid;
+				if (M.chld[q].pid == hx_chld[c]->pid) {
+					struct mtask_s *t = m_find(M.chld[q].uid);
+					spawner = t && t->gen == M.chld[q].gen ? M.chld[q].uid : "old";
+				}
 			}
 			snprintf(tags[c], sizeof(tags[c]), "%s>%s", spawner, occ);
 		}
@@ -638,7 +667,10 @@ canon(void)
 	}
 	{
 		char tags[HX_MAXCHLD][24];
-		for (int c = 0; c < M.nchld; c++) snprintf(tags[c], sizeof(tags[c]), "%s", M.chld[c].uid);
+		for (int c = 0; c < M.nchld; c++) {
+			struct mtask_s *t = m_find(M.chld[c].uid);
+			snprintf(tags[c], sizeof(tags[c]), "%s%s", M.chld[c].uid, t && t->gen == M.chld[c].gen ? "" : "(old)");
+		}
 		qsort(tags, (size_t)M.nchld, sizeof(tags[0]), (int(*)(const void*, const void*))strcmp);
 		for (int c = 0; c < M.nchld; c++) h = hx_hash(h, tags[c], strlen(tags[c]) + 1);
 	}
@@ -753,51 +785,90 @@ enumerate(void)
 	}
 	/* forks are ~20x cheaper when parent and child stay on one CPU */
 	if (vd_opt_l("pin", 1)) {
-		cpu_set_t cs;
+		/* no _GNU_SOURCE in this TU (echsd.c), so no CPU_SET: raw mask */
+		unsigned long mask[16] = {0};
 		long ncpu = sysconf(_SC_NPROCESSORS_ONLN);
-		CPU_ZERO(&cs);
-		CPU_SET((unsigned)(vd_shard % (ncpu > 0 ? ncpu : 1)), &cs);
-		(void)sched_setaffinity(0, sizeof(cs), &cs);
+		unsigned cpu = (unsigned)(vd_shard % (ncpu > 0 ? ncpu : 1));
+		mask[cpu / (8 * sizeof(long))] |= 1UL << (cpu % (8 * sizeof(long)));
+		(void)syscall(SYS_sched_setaffinity, 0L, (long)sizeof(mask), (long)mask, 0L, 0L, 0L);
 	}
 	hx_boot(1);
 	memset(&M, 0, sizeof(M));
 	hist[0] = '\0';
 
-	/* one case per first event: the subtree below it is explored by forked images */
+	hx_drift = strtod(vd_opt("drift", "0"), NULL);
+	/* one case per pair of first two events: the subtree below it is explored by forked images */
 	n1 = enabled(e1, 96);
-	(void)e2;
 	for (int i = 0; i < n1; i++) {
-		char name[96];
-		if (!vd_next()) continue;
-		evname(name, sizeof(name), &e1[i]);
-		vd_desc("%s ...", name);
-		vd_shape("prop=%s/first=%s", p, evkind(&e1[i]));
-		memset(VT, 0, sizeof(*VT));
-		/* run the subtree in a child so that this image stays pristine */
+		char name1[96], name2[96];
+		int n2;
+
+		evname(name1, sizeof(name1), &e1[i]);
+		/* ask a forked image what is enabled after the first event */
+		VT->nscratch = -1;
 		fflush(stdout);
 		pid_t c = fork();
 		if (c == 0) {
 			prctl(PR_SET_PDEATHSIG, SIGKILL);
-			pruned_violation = 0;
+			/* quiet: the pair cases below report about the first event themselves */
+			int sv = dup(1);
+			int nul = open("/dev/null", O_WRONLY);
+			dup2(nul, 1);
+			long svn = vd_sh->nviol;
 			apply(&e1[i]);
-			VT->transitions++;
-			if (!pruned_violation && visit(canon(), maxdepth - 1)) {
-				explore(1);
-			}
 			fflush(stdout);
+			dup2(sv, 1);
+			vd_sh->nviol = svn;
+			struct ev_s tmp[96];
+			int n = pruned_violation ? 0 : enabled(tmp, 96);
+			for (int q = 0; q < n; q++) {
+				VT->scratch[q][0] = tmp[q].kind, VT->scratch[q][1] = tmp[q].user, VT->scratch[q][2] = tmp[q].uid;
+				VT->scratch[q][3] = tmp[q].arg, VT->scratch[q][4] = tmp[q].arg2;
+			}
+			VT->nscratch = n;
 			_exit(0);
 		}
 		int st;
 		while (waitpid(c, &st, 0) < 0 && errno == EINTR);
-		if (!(WIFEXITED(st) && WEXITSTATUS(st) == 0)) {
-			vd_viol("crash/first-event", "daemon image died handling %s (status %#x)", name, st);
+		n2 = VT->nscratch;
+		if (n2 < 0) {
+			/* the daemon did not survive the first event: one case for that */
+			n2 = 0;
 		}
-		vd_count("states", VT->states);
-		vd_count("transitions", VT->transitions);
-		vd_count("traces", VT->traces);
-		vd_count("pruned_at_violation", VT->pruned);
-		if (VT->states >= 2) vd_nontrivial();
-		vd_sample("%s ... : %ld states, %ld transitions, %ld maximal histories below this first event (depth %d)", name, VT->states, VT->transitions, VT->traces, maxdepth);
+		for (int q = 0; q < n2; q++) {
+			e2[q] = (struct ev_s){VT->scratch[q][0], VT->scratch[q][1], VT->scratch[q][2], VT->scratch[q][3], VT->scratch[q][4]};
+		}
+		for (int j = 0; j < (n2 ? n2 : 1); j++) {
+			if (!vd_next()) continue;
+			if (n2) evname(name2, sizeof(name2), &e2[j]); else name2[0] = '\0';
+			vd_desc("%s %s ...", name1, name2);
+			vd_shape("prop=%s/first=%s", p, evkind(&e1[i]));
+			memset(VT, 0, sizeof(*VT));
+			/* run the subtree in a child so that this image stays pristine */
+			fflush(stdout);
+			c = fork();
+			if (c == 0) {
+				prctl(PR_SET_PDEATHSIG, SIGKILL);
+				pruned_violation = 0;
+				apply(&e1[i]);
+				VT->transitions++;
+				if (!pruned_violation && visit(canon(), maxdepth - 1) && n2 && maxdepth > 1) {
+					step(&e2[j], 1);
+				}
+				fflush(stdout);
+				_exit(0);
+			}
+			while (waitpid(c, &st, 0) < 0 && errno == EINTR);
+			if (!(WIFEXITED(st) && WEXITSTATUS(st) == 0)) {
+				vd_viol("crash/first-event", "daemon image died handling %s (status %#x)", name1, st);
+			}
+			vd_count("states", VT->states);
+			vd_count("transitions", VT->transitions);
+			vd_count("traces", VT->traces);
+			vd_count("pruned_at_violation", VT->pruned);
+			if (VT->states >= 2) vd_nontrivial();
+			vd_sample("%s %s ... : %ld states, %ld transitions, %ld maximal histories below (depth %d)", name1, name2, VT->states, VT->transitions, VT->traces, maxdepth);
+		}
 	}
 }
 
